@@ -37,7 +37,12 @@ fn random_line(r: &mut Rng) -> String {
     let num = |r: &mut Rng| -> String {
         match r.below(8) {
             0 => format!("{}", r.range(-180, 180)),
-            1 => format!("{}:{}:{}{}", r.range(0, 89), r.range(0, 59), r.range(0, 59), r.pick(&["", "N", "S", "E", "W"])),
+            1 => match r.below(4) {
+                // (minutes and seconds with fractions, up to but not including the next unit)
+                0 => format!("{}:{}:{}.{}{}", r.range(0, 89), r.range(0, 59), r.pick(&[0, 30, 59, 59]), r.pick(&["5", "25", "999", "0"]), r.pick(&["", "N", "S", "E", "W"])),
+                1 => format!("{}:{}.{}{}", r.range(0, 89), r.pick(&[0, 30, 59, 59]), r.pick(&["5", "75", "999"]), r.pick(&["", "N", "S", "E", "W"])),
+                _ => format!("{}:{}:{}{}", r.range(0, 89), r.range(0, 59), r.range(0, 59), r.pick(&["", "N", "S", "E", "W"])),
+            },
             // a negative sexagesimal value, also with zero degrees (less than a degree south or west)
             6 => format!("-{}:{}:{}", r.pick(&[0, 0, 1, 12, 55]), r.range(0, 59), r.range(1, 59)),
             7 => format!("-0:{}", r.range(1, 59)),
